@@ -185,6 +185,10 @@ func c04Targets(tier string) []*c04Target {
 		&withJSON{M: map[string]any{"a": 1, "b": "s", "c": 1.5, "d": true, "e": nil, "f": []any{1, "x", nil, map[string]any{"k": json.Number("12")}}, "g": map[string]any{}}, A: []any{"x", 2, nil}, Z: 7},
 		&withJSON{M: map[string]any{"": []any{}}, A: []any{map[string]any{"k": []any{false}}}},
 	}, true, 48)
+	// the JSON-any codecs as the top-level type, with a string / number / nested container as the very
+	// last bytes of the input (an overrun by one byte then leaves the buffer, not just the entry)
+	addReal("json-map", []any{&map[string]any{"a": "x"}, &map[string]any{"k": json.Number("12")}, &map[string]any{"m": map[string]any{"": "y"}}, &map[string]any{"n": nil, "l": []any{"z"}}}, true, 48)
+	addReal("json-array", []any{&[]any{"x"}, &[]any{1, json.Number("1.5")}, &[]any{[]any{"q"}}, &[]any{map[string]any{"k": "v"}}}, true, 48)
 	// every null type, in fields, behind pointers and as map values, and the BigQuery timestamp codec
 	// (registered under the tag name the README uses) - their Read methods have error paths of their own
 	type nulls struct {
